@@ -200,7 +200,65 @@ func c11Judge(cs *core.Case, kinds []int) {
 	}
 }
 
+// c11NonCanonical checks the Unmarshal clause on member encodings the library's encoder never
+// produces (surplus words inside a frame, padding shapes, zero-length BYE reasons, …): whenever
+// rtcp.Unmarshal decodes the datagram, CompoundPacket.Unmarshal must succeed exactly when the
+// decoded list validates, and then hold the same packets.
+func c11NonCanonical(cs *core.Case) {
+	r := cs.R
+	var in []byte
+	// compound-shaped prefix in 3/4 of the cases
+	if r.Chance(3, 4) {
+		for _, m := range *gen.CompoundValue(r, gen.Opts{Small: true, NoBig: true}) {
+			e, err := ref.Encode(m, ref.Lib)
+			if err != nil {
+				return
+			}
+			f := e.B
+			if r.Chance(1, 2) {
+				f = softMutate(r, f)
+			}
+			in = append(in, f...)
+		}
+	}
+	for i := r.Intn(3); i > 0; i-- {
+		if f := corpusFrame(r); f != nil {
+			in = append(in, f...)
+		}
+	}
+	if len(in) == 0 {
+		return
+	}
+	ps, err, pan := gUnmarshal(cloneBytes(in))
+	cs.Eval(1)
+	if pan != "" || err != nil {
+		cs.Count("non-canonical/datagram-rejected")
+		return
+	}
+	var verr error
+	core.Guard(func() { verr = rtcp.CompoundPacket(ps).Validate() })
+	var dec rtcp.CompoundPacket
+	var uerr error
+	if panicked, v, st := core.Guard(func() { uerr = dec.Unmarshal(cloneBytes(in)) }); panicked {
+		cs.Fail("panic/Unmarshal", core.W{"input_hex": mon.Hex(in, 300), "panic": v, "stack": st})
+		return
+	}
+	cs.Eval(2)
+	cs.Distinct(core.Digest([]byte("nc"), in))
+	cs.Count(fmt.Sprintf("non-canonical/validates-%v", verr == nil))
+	det := func() core.W {
+		return core.W{"input_hex": mon.Hex(in, 300), "datagram_decodes_to": vdump(ps), "validate_error": errStr(verr), "compound_unmarshal_error": errStr(uerr)}
+	}
+	if !cs.Check((uerr == nil) == (verr == nil), "unmarshal/non-canonical", det) {
+		return
+	}
+	if uerr == nil {
+		cs.Check(mon.SemEqual([]rtcp.Packet(dec), ps), "unmarshal/non-canonical-members", det)
+	}
+}
+
 func runC11(c *core.Ctx) {
+	c.Section("non-canonical", c.N(80000, 4000000), c11NonCanonical)
 	maxLen := 4
 	if c.Thorough() {
 		maxLen = 7
